@@ -16,6 +16,11 @@ Record var_fact := mk_vf { vf_fn : string; vf_var : string; vf_rw : rw; vf_kind 
 Inductive cfgk := CfgCopy | CfgFresh | CfgShared.
 Record auth_site := mk_as { as_fn : string; as_arg : string; as_kind : cfgk }.
 
+(* a config-returning hook installed on an Authenticator (ServerConfigForCommand): the
+   handshake writes the connection's ECDH key into what the hook returns and adopts it *)
+Inductive hookk := HookCopy | HookNil | HookShared.
+Record hook_site := mk_hs { hs_fn : string; hs_field : string; hs_rhs : string; hs_kind : hookk }.
+
 Inductive sorigin := SLocal | SField.
 Record broker_fact := mk_bf { bf_fn : string; bf_callee : string; bf_origin : sorigin; bf_held : heldset }.
 
@@ -74,6 +79,9 @@ Definition var_ok (v : var_fact) : bool :=
 
 Definition private (s : auth_site) : bool :=
   match as_kind s with CfgCopy | CfgFresh => true | CfgShared => false end.
+
+Definition hook_private (h : hook_site) : bool :=
+  match hs_kind h with HookCopy | HookNil => true | HookShared => false end.
 
 (* a write to the published broker stream holds the write mutex; the only reader of it is serve *)
 Definition broker_ok (b : broker_fact) : bool :=
